@@ -153,6 +153,17 @@ def gen_cases(tier: str, seed: int) -> List[Dict]:
                 b = S.make_poly_spec("b", names, eb, shape_pair[1], rng, na, mode="raw", zero_prob=0.1, literal_prob=0.2, share_from=S.spec_atoms(a) or None)
                 n += 1
                 cases.append({"id": "%s-%03d-pair" % (PROP, n), "op": "compare", "operands": [a, b], "options": opt, "limits": lim})
+    # the same comparisons on unsigned coefficient dtypes (native fidelity runs / replays; the symbolic run is dtype-agnostic)
+    for dt in ("uint8", "uint32", "uint16"):
+        for names, exps in monosets[:3]:
+            a = S.make_poly_spec("a", names, exps[:3], (2,), rng, 2, mode="raw", zero_prob=0.3, literal_prob=0.3)
+            b = S.make_poly_spec("b", names, exps[:2], (2,), rng, 2, mode="raw", zero_prob=0.3, literal_prob=0.3)
+            for sp in (a, b):
+                sp["dtype"] = dt
+                sp["unsigned"] = True
+                sp["slots"] = [[abs(x) if not isinstance(x, str) else x for x in col] for col in sp["slots"]]
+            n += 1
+            cases.append({"id": "%s-%03d-pair-%s" % (PROP, n, dt), "op": "compare", "operands": [a, b], "options": rng.choice(settings), "limits": lim})
     # constants order as numbers; poly vs number
     for opt in settings[:2]:
         a = S.make_poly_spec("a", ("q0",), [[0]], (2,), rng, 2, mode="raw")
